@@ -136,6 +136,19 @@ CHECKS = {
              'reference written from the statement; to_mllp() framing is checked for every version; 16 scripts are replayed '
              'over real TCP and must agree with the socket model.',
         note='trusted: socketserver/io/socket of CPython; the socket model (validated on 16 loopback cases, disagreement = harness error)'),
+    'C17': dict(
+        engine=E1, design_ref='DESIGN.md section 7 C17',
+        technique='exhaustive enumeration of all 72 default configurations (12 versions x 2 levels x 3 delimiter sets, installed '
+                  'through the real setters) x a corpus of explicit-argument calls for every version and level; differential '
+                  'oracle against the baseline configuration; default-getter call sites recorded',
+        text='Per explicit (version, level): ~150 calls (every parse_* entry point with standard and custom delimiters, Message / '
+             'Group / Segment / Field / Component / SubComponent constructors, traversal writes inside a Message, to_er7 / to_mllp '
+             '/ validate, add_subcomponent for every base datatype name of any version, datatype_factory and leaf parsing with '
+             'valid / invalid / over-long / invalid-and-over-long values per base datatype) are evaluated under each of the 72 '
+             'configurations and must give the same ER7 text, exception class, recursive listing and validation report as under '
+             'the configuration that agrees with the explicit arguments (~250,000 evaluations); messages built under one '
+             'configuration are re-observed after switching to others.',
+        note='trusted: differential oracle only (no reference values); calls on parentless elements without an encoding-chars argument are outside the statement'),
     'C19': dict(
         engine=E3, design_ref='DESIGN.md section 7 C19, section 3.3',
         technique='stateless model checking of the implementation: real threads under a baton scheduler with a choice point '
